@@ -38,3 +38,31 @@ fn err_new_coords() {
     assert!(e.column == exp_col, "column");
     assert!(e.offset == offset, "offset-copied");
 }
+
+/// Same clauses for three fully symbolic characters (thorough tier; still BOUNDED).
+#[kani::proof]
+#[kani::unwind(5)]
+fn err_new_coords3() {
+    let c1 = any_char();
+    let c2 = any_char();
+    let c3 = any_char();
+    let mut s = String::new();
+    s.push(c1);
+    s.push(c2);
+    s.push(c3);
+    let offset: usize = kani::any();
+    kani::assume(offset <= s.len() + 1);
+    let e = JmespathError::new(&s, offset, ErrorReason::Runtime(RuntimeError::InvalidSlice));
+    let b1 = 0 < offset;
+    let b2 = c1.len_utf8() < offset;
+    let b3 = c1.len_utf8() + c2.len_utf8() < offset;
+    let exp_line = ((b1 && c1 == '\n') as usize) + ((b2 && c2 == '\n') as usize) + ((b3 && c3 == '\n') as usize);
+    // characters since the last newline among those that start before the offset
+    let mut col = 0usize;
+    if b1 { col = if c1 == '\n' { 0 } else { col + 1 }; }
+    if b2 { col = if c2 == '\n' { 0 } else { col + 1 }; }
+    if b3 { col = if c3 == '\n' { 0 } else { col + 1 }; }
+    assert!(e.line == exp_line, "line");
+    assert!(e.column == col, "column");
+    assert!(e.offset == offset, "offset-copied");
+}
